@@ -178,10 +178,18 @@ func (c *Client) Packet(m *message.Message) []byte {
 	return p
 }
 
+const handshakeBody = `{"sys":{"platform":"verif","libVersion":"0","clientBuildNumber":"0","clientVersion":"0"},"user":{}}`
+
+// Handshake sends a Handshake packet (also usable on an already working
+// connection: the real session then goes back to StatusHandshake).
+func (c *Client) Handshake() bool { return c.SendPacket(packet.Handshake, []byte(handshakeBody)) }
+
+// Ack sends a HandshakeAck packet.
+func (c *Client) Ack() bool { return c.SendPacket(packet.HandshakeAck, nil) }
+
 // Open performs handshake + handshake-ack.
 func (c *Client) Open() bool {
-	ok := c.SendPacket(packet.Handshake, []byte(`{"sys":{"platform":"verif","libVersion":"0","clientBuildNumber":"0","clientVersion":"0"},"user":{}}`)) &&
-		c.SendPacket(packet.HandshakeAck, nil)
+	ok := c.Handshake() && c.Ack()
 	c.opened = ok
 	return ok
 }
